@@ -264,6 +264,28 @@ def print_assumptions(prop, timeout=600):
     return res, out
 
 
+def _enclosing_lemma(prop, fname, line):
+    """Name the lemma in which a build error occurred and the Props.v theorem(s) closed by it, e.g.
+    ' (in lemma gen_Less_refines, theorem C05_gen_Less_refines)'. Best effort; '' when unknown."""
+    try:
+        path = os.path.join(coq_dir(prop), os.path.basename(fname))
+        lines = open(path, encoding="utf-8", errors="replace").read().split("\n")[:int(line)]
+        name = None
+        for l in reversed(lines):
+            mm = re.match(r"\s*(Lemma|Theorem|Corollary|Example|Fact|Remark|Definition|Fixpoint)\s+([A-Za-z0-9_']+)", l)
+            if mm:
+                name = mm.group(2)
+                break
+        if not name:
+            return ""
+        src = strip_comments(open(os.path.join(coq_dir(prop), "Props.v")).read())
+        thms = re.findall(r"Theorem\s+([A-Za-z0-9_']+)[^.]*?(?:\.[^.]*?)*?Proof\.\s*exact\s+\(?%s\b" % re.escape(name), src)
+        thms = [t for t in re.findall(r"Theorem\s+([A-Za-z0-9_']+)\b(?:(?!Theorem\s).)*?Proof\.\s*exact\s+\(?%s\b" % re.escape(name), src, re.S)]
+        return " (in lemma %s%s)" % (name, (", theorem " + ", ".join(thms[:3])) if thms else "")
+    except Exception:
+        return ""
+
+
 def proof_gate(prop):
     """Returns dict(ok, obligations, discharged, theorems, axioms, failures, log)."""
     res = {"ok": False, "obligations": 0, "discharged": 0, "theorems": [], "axioms": [],
@@ -281,7 +303,7 @@ def proof_gate(prop):
     if rc != 0:
         m = re.findall(r'File "([^"]+)", line (\d+)', out)
         where = ("%s:%s" % m[-1]) if m else "?"
-        res["failures"].append("coq build failed at %s" % where)
+        res["failures"].append("coq build failed at %s%s" % (where, _enclosing_lemma(prop, *m[-1]) if m else ""))
         res["failed_file"] = m[-1][0] if m else None
         return res
     pa, paout = print_assumptions(prop)
